@@ -43,7 +43,7 @@ import (
 //	    upstream parses the head itself, reports the framing headers it was given and reads the body they announce
 //	    with a deadline (so a request that would hang is observed, not waited for).
 //	http1m r <METHOD> <STATUS> <cl0|cl|chunked|chunked0|close|none|hcl|hchunked> <bodyHex>
-//	     => <STATUS> <te-|chunked|identity> <cl-|clN> <conn-|close> <e2e ok|bad> <bodyHex> <complete|incomplete> | lost
+//	     => <STATUS> <te-|techunked|teidentity> <cl-|clN> <conn-|connclose> <e2e ok|bad> <bodyHex> <complete|incomplete> | lost
 //	    response direction: the upstream answers with the given status and framing (hcl / hchunked: framing header without
 //	    a body, as a HEAD or 304 response carries it); the client reads the response by the rules of RFC 7230 3.3.3.
 //	http1m d te <end|data> <bodyHex> => <METHOD> <bodyHex> | lost
@@ -426,6 +426,7 @@ func runHTTP1Framing(c *hx.Ctx) {
 	defer drop()
 	clTok := func(s string) string { return "cl" + s }
 	// exchange sends one request and returns what the upstream saw and what the client read
+	respWait := 3 * time.Second
 	exchange := func(method string, wire []byte, sc c01fScript) (*c01fSeen, string) {
 		c01fDrain()
 		c01fMu.Lock()
@@ -443,7 +444,7 @@ func runHTTP1Framing(c *hx.Ctx) {
 		}
 		resp := "lost"
 		if got != nil && got.complete {
-			cli.SetDeadline(time.Now().Add(3 * time.Second))
+			cli.SetDeadline(time.Now().Add(respWait))
 			st, te, cl, cn, e2e, body, complete, interim, err := c01fReadResponse(cli, cbr, method)
 			if err == nil {
 				resp = fmt.Sprintf("%s te%s %s conn%s %s %s %s i%d", st, te, clTok(cl), cn, map[bool]string{true: "ok", false: "bad"}[e2e], hx.Hex(body),
@@ -505,11 +506,17 @@ func runHTTP1Framing(c *hx.Ctx) {
 				case method == "HEAD" && (st == 204):
 					framings = []string{"none", "cl0"}
 				case method == "HEAD":
-					framings = []string{"none", "cl0", "hcl", "hchunked"}
+					framings = []string{"none", "cl0", "hcl"}
+					if round == 0 && (st == 200 || st == 304) {
+						framings = append(framings, "hchunked") // KNOWN_FINDINGS: never forwarded (costs a timeout): once per run
+					}
 				case st == 204:
 					framings = []string{"none", "cl0"}
 				case st == 304:
 					framings = []string{"none", "cl0", "hcl"}
+					if round == 0 && method == "GET" {
+						framings = append(framings, "hchunked") // KNOWN_FINDINGS, as above
+					}
 				default:
 					framings = []string{"cl0", "cl", "chunked", "chunked0", "close", "close"}
 				}
@@ -522,6 +529,10 @@ func runHTTP1Framing(c *hx.Ctx) {
 					var reqBody []byte
 					if method == "POST" {
 						shape, reqBody = "cl", []byte("q")
+					}
+					respWait = 3 * time.Second
+					if fr == "hchunked" {
+						respWait = 1500 * time.Millisecond
 					}
 					got, resp := exchange(method, c01fWire(method, shape, "none", reqBody), c01fScript{status: st, framing: fr, body: body})
 					out := "lost"
